@@ -174,8 +174,27 @@ func (c *CopyCommand) copyOneFile(srcRelPath, destRelPath string, tow io.Writer)
 		return nil
 	}
 
-	if err := updateFileDataWithPointsList(destDB, srcPlDif, now); err != nil {
-		return err
+	// NOTE: Writing points to an archive also propagates aggregated values
+	// to lower precision archives, which may overwrite points there that were
+	// equal to the source. So archives are written in order from the highest
+	// precision and the difference of each archive is recomputed against the
+	// current destination content right before it is written.
+	for archiveID := range destDB.ArchiveInfoList() {
+		if srcTsList[archiveID] == nil {
+			continue
+		}
+		destTs, err := destDB.FetchFromArchive(archiveID, c.From, until, now)
+		if err != nil {
+			return err
+		}
+		if c.CopyNaN {
+			srcPlDif[archiveID], _ = srcTsList[archiveID].DiffPoints(destTs)
+		} else {
+			srcPlDif[archiveID], _ = srcTsList[archiveID].DiffPointsExcludeSrcNaN(destTs)
+		}
+		if err := destDB.UpdatePointsForArchive(srcPlDif[archiveID], archiveID, now); err != nil {
+			return err
+		}
 	}
 
 	if err := printFileData(tow, srcHeader, srcPlDif, true); err != nil {
